@@ -270,6 +270,13 @@ class TorchDistribution:
         :return: Log probability of the action.
         :rtype: torch.Tensor
         """
+        # Stored actions of one-component spaces come back flattened to (batch,):
+        # evaluate them in the distribution's own batch shape, not broadcast
+        if isinstance(self.distribution, list):
+            action = action.reshape(-1, len(self.distribution))
+        else:
+            action = action.reshape(self.distribution.batch_shape)
+
         _action = action if not self.squash_output else self.sampled_action
 
         log_prob = self._handler.log_prob(self.distribution, _action)
